@@ -2111,6 +2111,13 @@ class Interp:
             return None
         if fname == "dict" and not args:
             return [(cfg, DictV([(Const(k), v) for k, v in kwargs.items()]))]
+        if fname == "dict" and len(args) == 1 and isinstance(args[0], ListV) and all(isinstance(x, ListV) and len(x.items) == 2 for x in args[0].items):
+            d = DictV(())  # dict(<sequence of pairs>)
+            for x in args[0].items:
+                d = d.set(x.items[0], x.items[1])
+            for k, v in kwargs.items():
+                d = d.set(Const(k), v)
+            return [(cfg, d)]
         if fname == "dict" and len(args) == 1 and isinstance(args[0], DictV):
             d = DictV(args[0].items)  # a fresh dictionary (no alias)
             for k, v in kwargs.items():
